@@ -938,9 +938,9 @@ def law_of(ctx, repo, fname, first_param_feature, want):
     params = [a.arg for a in f.args.args]
     rets = [r for r in walk(f) if isinstance(r, ast.Return)]
     augs = {txt(n.target) for n in walk(f) if isinstance(n, ast.AugAssign)}
-    main = [r for r in rets if isinstance(r.value, ast.Name)
-            and r.value.id in augs]
-    if len(main) != 1 or f.body[-1] is not main[0]:
+    main = [r for r in rets if r is f.body[-1] and isinstance(
+        r.value, ast.Name) and r.value.id in augs]
+    if len(main) != 1:
         raise AnalysisError(f"{fname}: return shape")
     # other returns are early exits (a factor of one): where they may be
     # taken is decided with the guard below, what they return by R5.1
@@ -1193,11 +1193,21 @@ def r53(ctx, repo, m):
            label="route A forward application")
     em = [c for s in m.routeA for c in find_calls(s, name="scale_emodulus")]
     gd = [c for s in m.routeA for c in find_calls(s, attr="griddata")]
-    ok = len(em) == 1 and len(gd) == 1 and isinstance(
-        gd[0].parent, ast.Assign) and txt(kwarg(em[0], "emodulus", 0)) == txt(
-        gd[0].parent.targets[0]) and any(
+    if len(em) != 1 or len(gd) != 1 or not isinstance(
+            gd[0].parent, ast.Assign):
+        raise AnalysisError("get_emodulus: per-event route: interpolation / "
+                            "back-scaling calls not found")
+
+    def pos_a(n_):
+        while not any(n_ is s_ for s_ in m.routeA):
+            n_ = n_.parent
+        return [i for i, s_ in enumerate(m.routeA) if s_ is n_][0]
+    earg = kwarg(em[0], "emodulus", 0)
+    ename = root_def(m.routeA, earg)[0] if isinstance(earg, ast.Name) \
+        else None
+    ok = ename is not None and ename == txt(gd[0].parent.targets[0]) and any(
         kw.arg is None and txt(kw.value) == "backscale_kw"
-        for kw in em[0].keywords) and em[0].lineno > gd[0].lineno
+        for kw in em[0].keywords) and pos_a(em[0]) > pos_a(gd[0])
     ctx.ob("R5.3", ok,
            "per-event route: the interpolated modulus is scaled back with "
            "backscale_kw after the interpolation" if ok else
@@ -1369,9 +1379,18 @@ def r54(ctx, repo, m):
         exps = [c2 for c2 in find_calls(cfu, name="np.exp")]
         bad = None
         for e in exps:
-            def res2(node):
+            def res2(node, depth=0):
                 if isinstance(node, ast.Name):
-                    return node.id
+                    if node.id in (p[0], scn):
+                        return node.id
+                    d_ = single_def(cfu, node.id)
+                    if d_ is None or depth > 6:
+                        raise AnalysisError(
+                            f"{fn}: `{node.id}` in `{short(e, 40)}` is not "
+                            "the abscissa, the pixel scale or a local bound "
+                            "once")
+                    return ratfun(d_.value,
+                                  lambda n_: res2(n_, depth + 1))
                 return None
             mo = ratfun(e.args[0], res2).monomial()
             if mo is None or mo[0] != {p[0]: 1, scn: 1} or mo[1] >= 0:
@@ -1756,9 +1775,18 @@ def r55(ctx, repo, m, x4):
            "extrapolate default")
     # the result of the interpolation is what is returned
     rets = [r for r in walk(f) if isinstance(r, ast.Return)]
-    gds = {txt(c.parent.targets[0]) for c in find_calls(f, attr="griddata")
-           if isinstance(c.parent, ast.Assign)}
-    ok = len(rets) == 1 and len(gds) == 1 and txt(rets[0].value) in gds
+    if len(rets) != 1 or not isinstance(rets[0].value, ast.Name):
+        raise AnalysisError("get_emodulus: return value not understood")
+    ok = True
+    for stmts in (m.routeA, m.routeB):
+        gd = [c for s_ in stmts for c in find_calls(s_, attr="griddata")]
+        tgt = txt(gd[0].parent.targets[0]) if len(gd) == 1 and isinstance(
+            gd[0].parent, ast.Assign) else None
+        if tgt is None:
+            raise AnalysisError("get_emodulus: interpolation result not "
+                                "bound to a name")
+        if root_def(stmts, rets[0].value)[0] != tgt:
+            ok = False
     ctx.ob("R5.5", ok, "the interpolated array is returned" if ok else
            "the returned value is not the interpolation result",
            node=rets[0] if rets else f, label="returns interpolation",
@@ -2981,4 +3009,124 @@ TWINS = [
        '        assert ft in _EXPECTED_UNITS, \\\n'
        '            "Please add sanity check for {}!".format(ft)\n'
        '        assert un == _EXPECTED_UNITS[ft]\n')]),
+    ('refactoring 3: interpolation and extrapolation in a shared helper', EM,
+     [('        emod = spint.griddata((lut[:, 0], lut[:, 1]), lut[:, 2],\n'
+       '                              (datax_4lut, deform_4lut),\n'
+       "                              method='linear')\n"
+       '\n'
+       '        if extrapolate:\n'
+       '            # New in dclab 0.23.0: Perform extrapolation outside of '
+       'the LUT\n'
+       '            # This is not well-tested and thus discouraged!\n'
+       '            extrapolate_emodulus(lut=lut,\n'
+       '                                 datax=datax_4lut,\n'
+       '                                 deform=deform_4lut,\n'
+       '                                 emod=emod,\n'
+       '                                 deform_norm=defo_norm,\n'
+       '                                 inplace=True)\n',
+       '        emod = _interpolate_lut(lut=lut, datax=datax_4lut,\n'
+       '                                deform=deform_4lut, '
+       'deform_norm=defo_norm,\n'
+       '                                extrapolate=extrapolate)\n'),
+      ('        emod = spint.griddata((lut[:, 0], lut[:, 1]), lut[:, 2],\n'
+       '                              (datax, deform),\n'
+       "                              method='linear')\n"
+       '\n'
+       '        if extrapolate:\n'
+       '            # New in dclab 0.23.0: Perform extrapolation outside of '
+       'the LUT\n'
+       '            # This is not well-tested and thus discouraged!\n'
+       '            extrapolate_emodulus(lut=lut,\n'
+       '                                 datax=datax,\n'
+       '                                 deform=deform,\n'
+       '                                 emod=emod,\n'
+       '                                 deform_norm=defo_norm,\n'
+       '                                 inplace=True)\n',
+       '        emod = _interpolate_lut(lut=lut, datax=datax, deform=deform,\n'
+       '                                deform_norm=defo_norm,\n'
+       '                                extrapolate=extrapolate)\n'),
+      ('def normalize(data, dmax):\n',
+       'def _interpolate_lut(lut, datax, deform, deform_norm, extrapolate):\n'
+       '    """Interpolate the normalized LUT at the normalized (datax, '
+       'deform)\n'
+       '\n'
+       '    This is the interpolation step shared by both computation routes\n'
+       '    of :func:`get_emodulus`. All arrays must already be normalized\n'
+       '    (see :func:`normalize`); `deform_norm` is the normalization '
+       'value\n'
+       '    that was used for `lut[:, 1]` and `deform`.\n'
+       '    """\n'
+       '    emod = spint.griddata((lut[:, 0], lut[:, 1]), lut[:, 2],\n'
+       '                          (datax, deform),\n'
+       "                          method='linear')\n"
+       '\n'
+       '    if extrapolate:\n'
+       '        # New in dclab 0.23.0: Perform extrapolation outside of the '
+       'LUT\n'
+       '        # This is not well-tested and thus discouraged!\n'
+       '        extrapolate_emodulus(lut=lut,\n'
+       '                             datax=datax,\n'
+       '                             deform=deform,\n'
+       '                             emod=emod,\n'
+       '                             deform_norm=deform_norm,\n'
+       '                             inplace=True)\n'
+       '    return emod\n'
+       '\n'
+       '\n'
+       'def normalize(data, dmax):\n')]),
+    ('refactoring 3: scale laws with early-return guards', SCALE,
+     [('    if channel_width_in != channel_width_out:\n'
+       '        area_um_corr *= (channel_width_out / channel_width_in)**2\n',
+       '    if channel_width_in == channel_width_out:\n'
+       '        # nothing to scale\n'
+       '        return area_um_corr\n'
+       '\n'
+       '    area_um_corr *= (channel_width_out / channel_width_in)**2\n'),
+      ('    if not has_nones and has_changes:\n'
+       '        emodulus_corr *= (flow_rate_out / flow_rate_in) \\\n'
+       '            * (viscosity_out / viscosity_in) \\\n'
+       '            * (channel_width_in / channel_width_out)**3\n'
+       '\n',
+       '    if has_nones or not has_changes:\n'
+       '        # nothing to scale\n'
+       '        return emodulus_corr\n'
+       '\n'
+       '    emodulus_corr *= ((flow_rate_out / flow_rate_in)\n'
+       '                      * (viscosity_out / viscosity_in)\n'
+       '                      * (channel_width_in / channel_width_out)**3)\n'),
+      ('    if channel_width_in != channel_width_out:\n'
+       '        volume_corr *= (channel_width_out / channel_width_in)**3\n',
+       '    if channel_width_in == channel_width_out:\n'
+       '        # nothing to scale\n'
+       '        return volume_corr\n'
+       '\n'
+       '    volume_corr *= (channel_width_out / channel_width_in)**3\n')]),
+    ('refactoring 3: named intermediate in the decay arguments', PX,
+     [('    offs = 0.0012\n'
+       '    exp1 = 0.020 * np.exp(-area_um * pxscale / 7.1)\n'
+       '    exp2 = 0.010 * np.exp(-area_um * pxscale / 38.6)\n'
+       '    exp3 = 0.005 * np.exp(-area_um * pxscale / 296)\n'
+       '    delta = offs + exp1 + exp2 + exp3\n'
+       '\n'
+       '    return delta\n',
+       '    # negative area, rescaled to the pixel size of the simulations\n'
+       '    neg_area_scaled = -area_um * pxscale\n'
+       '    offs = 0.0012\n'
+       '    exp1 = 0.020 * np.exp(neg_area_scaled / 7.1)\n'
+       '    exp2 = 0.010 * np.exp(neg_area_scaled / 38.6)\n'
+       '    exp3 = 0.005 * np.exp(neg_area_scaled / 296)\n'
+       '    return offs + exp1 + exp2 + exp3\n'),
+      ('    offs = 0.0013\n'
+       '    exp1 = 0.0172 * np.exp(-volume * pxscalev / 40)\n'
+       '    exp2 = 0.0070 * np.exp(-volume * pxscalev / 450)\n'
+       '    exp3 = 0.0032 * np.exp(-volume * pxscalev / 6040)\n'
+       '    delta = offs + exp1 + exp2 + exp3\n'
+       '    return delta\n',
+       '    # negative volume, rescaled to the pixel size of the simulations\n'
+       '    neg_volume_scaled = -volume * pxscalev\n'
+       '    offs = 0.0013\n'
+       '    exp1 = 0.0172 * np.exp(neg_volume_scaled / 40)\n'
+       '    exp2 = 0.0070 * np.exp(neg_volume_scaled / 450)\n'
+       '    exp3 = 0.0032 * np.exp(neg_volume_scaled / 6040)\n'
+       '    return offs + exp1 + exp2 + exp3\n')]),
 ]
